@@ -430,7 +430,9 @@ def run(tier, seed, replay=None):
     progs = []
     for i in range(nprog):
         size = [0.5, 1.0, 1.0, 1.6][i % 4] if i % 25 else 3.0
-        if i % 4 == 1:
+        if i % 8 == 5:
+            prog, f = G.logic_program(C.Rng(r.next()))           # and/or with one constant operand and an impure one
+        elif i % 4 == 1:
             prog, f = G.callshape_program(C.Rng(r.next()))       # calling-convention boundary stream
         else:
             prog, f = G.generate(C.Rng(r.next()), size, loose=(i % 7 == 3))
